@@ -15,10 +15,12 @@ Definition site_Qc (w : Q) (hu cu : list view) (g : list Q) : Q := lastq (site_h
 Definition site_Qr (sum_qr sum_qh qh_ts : Q) : Q := radd sum_qr (rsub sum_qh qh_ts).
 
 (* ---- C02: one reported record against the streams it covers ---- *)
-Definition c02_b (eps : Q) (xs : list sin) (qh qc qr : Q) (hus cus : list Q) : list Z :=
+(* [slack]: absolute allowance for the 6-dp rounding of the site grid (2e-6 K x heat-capacity flow rate of the utility pseudo-streams
+   of a total-site record, 0 for every other record); computed by the harness from the record itself *)
+Definition c02_b (eps slack : Q) (xs : list sin) (qh qc qr : Q) (hus cus : list Q) : list Z :=
   let hot := hot_views shifted_view xs in let cold := cold_views shifted_view xs in
   let H := duty hot in let C := duty cold in
-  let sc := eps * dscale hot cold in
+  let sc := eps * dscale hot cold + slack in
   let near := fun a b => qleb (Qabs (a - b)) sc in
   if negb (near (qh - qc) (C - H)) then [V_PROP_FALSE; 21%Z]
   else if negb (near qr (H - qc)) then [V_PROP_FALSE; 22%Z]
@@ -35,7 +37,7 @@ Fixpoint sum_lists (ls : list (list Q)) : list Q :=
   | [l] => l
   | l :: r => let s := sum_lists r in map (fun p => Qred (fst p + snd p)) (combine l s)
   end.
-Definition c09_b (eps : Q) (xs_site : list sin) (zones : list rec) (di tz ts : rec) : list Z :=
+Definition c09_b (eps slack : Q) (xs_site : list sin) (zones : list rec) (di tz ts : rec) : list Z :=
   let hot := hot_views shifted_view xs_site in let cold := cold_views shifted_view xs_site in
   let sc := eps * dscale hot cold in
   let near := fun a b => qleb (Qabs (a - b)) sc in
@@ -45,7 +47,7 @@ Definition c09_b (eps : Q) (xs_site : list sin) (zones : list rec) (di tz ts : r
   else if negb (forall2b near (r_hu tz) (sum_lists (map r_hu zones)) && forall2b near (r_cu tz) (sum_lists (map r_cu zones)))
   then [V_PROP_FALSE; 92%Z]
   (* total-site targets never larger than the sum ... *)
-  else if negb (qleb (r_qh ts) (r_qh tz + sc) && qleb (r_qc ts) (r_qc tz + sc)) then [V_PROP_FALSE; 93%Z]
+  else if negb (qleb (r_qh ts) (r_qh tz + sc + slack) && qleb (r_qc ts) (r_qc tz + sc + slack)) then [V_PROP_FALSE; 93%Z]
   (* ... and never smaller than the site's own direct-integration targets *)
   else if negb (qleb (r_qh di - sc) (r_qh ts) && qleb (r_qc di - sc) (r_qc ts)) then [V_PROP_FALSE; 94%Z]
   (* site DI record is the exact optimum of all site streams (so the lower bound is the true one) *)
